@@ -23,6 +23,7 @@ import (
 	imap "github.com/emersion/go-imap/v2"
 	"github.com/emersion/go-imap/v2/imapserver"
 	"github.com/emersion/go-imap/v2/verifh/kit/ev"
+	"github.com/emersion/go-imap/v2/verifh/kit/refutf7"
 	"github.com/emersion/go-imap/v2/verifh/kit/srv"
 	"github.com/emersion/go-imap/v2/verifh/kit/stub"
 	"github.com/emersion/go-imap/v2/verifh/kit/tok"
@@ -432,7 +433,7 @@ func genPayload(t *rapid.T, label string, size int) string {
 		case 0, 1:
 			sb.WriteString(rapid.SampledFrom(canaries).Draw(t, label+".canary"))
 		case 2:
-			sb.WriteString(rapid.SampledFrom([]string{"\"", "{5}", "{3+}\r\nabc", "(", ")", "\\", " ", "\r\n", "]"}).Draw(t, label+".junk"))
+			sb.WriteString(rapid.SampledFrom([]string{"\"", "{5}", "{3+}\r\nabc", "(", ")", "\\", " ", "\r\n", "]", "&AA0ACg-"}).Draw(t, label+".junk"))
 		default:
 			sb.WriteString(rapid.SampledFrom([]string{"hello", "user", "Subject: x\r\n", "a b c", "payload", "h\u00e9llo", "\u53f0"}).Draw(t, label+".txt"))
 		}
@@ -453,7 +454,9 @@ func genArg(t *rapid.T, label string, stream bool) arg {
 	case "atom":
 		return arg{val: rapid.StringMatching(`[a-z][a-z0-9]{0,8}`).Draw(t, label+".atom"), form: form}
 	case "quoted":
-		v := rapid.SampledFrom([]string{"", "a b", "x\"y", "back\\slash", "plain", "zz1 DELETE canarybox", "{5}"}).Draw(t, label+".q")
+		// (the last two are modified UTF-7: they decode to names containing CR LF,
+		// which the responses echoing them must not carry in the clear)
+		v := rapid.SampledFrom([]string{"", "a b", "x\"y", "back\\slash", "plain", "zz1 DELETE canarybox", "{5}", "evil&AA0ACg-zz4 NOOP", "&AAo-zz1 DELETE canarybox&AA0ACg-x"}).Draw(t, label+".q")
 		return arg{val: v, form: form}
 	}
 	sizes := []int{0, 1, 20, 60, 300, 4095, 4096, 4097, 5000}
@@ -524,10 +527,30 @@ func genMisplaced(t *rapid.T, tag string) command {
 	return command{tag: tag, kind: "STATUS", pre: "STATUS box (", args: []arg{a}, post: ")" + post, method: "Status", mustFail: true}
 }
 
+// genFailsEarly: a command that is rejected before the server has looked at
+// its last argument, a non-synchronising literal, on a line that holds an
+// earlier '{' (inside a quoted string). The literal still frames the command.
+func genFailsEarly(t *rapid.T, tag string) command {
+	val := rapid.SampledFrom([]string{"zz1 DELETE canarybox\r\n", "zz4 NOOP\r\n", "hello", "zz3 CREATE canarybox\r\nzz4 NOOP\r\n"}).Draw(t, "early.val")
+	a := arg{val: val, form: "nonsync", announced: int64(len(val))}
+	pre := rapid.SampledFrom([]string{
+		"SEARCH CHARSET X-NO-SUCH-CHARSET SUBJECT \"{x\" BODY ",
+		"SEARCH CHARSET ISO-8859-15 HEADER \"{5}\" \"{\" TEXT ",
+		"NOOP \"{1\" ",
+		"XNOSUCHCOMMAND \"a{b\" {2} ",
+		"CHECK \"{\" ",
+		"FETCH 1 (BODY[HEADER.FIELDS (\"{x\")] BOGUS) ",
+	}).Draw(t, "early.pre")
+	return command{tag: tag, kind: "EARLYFAIL", pre: pre, args: []arg{a}, mustFail: true}
+}
+
 func genCommand1(t *rapid.T, i int) command {
 	tag := fmt.Sprintf("c%d", i)
 	if rapid.IntRange(0, 7).Draw(t, "misplaced-literal") == 0 {
 		return genMisplaced(t, tag)
+	}
+	if rapid.IntRange(0, 11).Draw(t, "fails-early") == 0 {
+		return genFailsEarly(t, tag)
 	}
 	switch rapid.SampledFrom([]string{"LOGIN", "SELECT", "CREATE", "STATUS", "LIST", "SEARCH", "SEARCH2", "APPEND", "APPEND", "FETCH", "NOOP", "AUTHENTICATE", "IDLE", "RENAME", "COPY"}).Draw(t, "cmd") {
 	case "LOGIN":
@@ -573,6 +596,16 @@ func genCommand1(t *rapid.T, i int) command {
 	return command{tag: tag, kind: "NOOP", pre: "NOOP"}
 }
 
+// sameArg: the backend value is the sent value, possibly after modified UTF-7
+// decoding (mailbox names, LIST references and patterns).
+func sameArg(sent, got string) bool {
+	if sent == got {
+		return true
+	}
+	dec, why := refutf7.Decode(sent)
+	return why == "" && dec == got
+}
+
 func callArgString(v any) (string, bool) {
 	switch x := v.(type) {
 	case string:
@@ -603,8 +636,14 @@ func (r *run) checkCalls(t fataler, cmds []command, status map[string]string) {
 					continue
 				}
 				want := c.args[i].val
-				if (k == "mailbox" || k == "newName" || k == "dest") && strings.EqualFold(want, "INBOX") {
-					want = "INBOX"
+				if k == "mailbox" || k == "newName" || k == "dest" {
+					// mailbox arguments travel in modified UTF-7
+					if dec, why := refutf7.Decode(want); why == "" {
+						want = dec
+					}
+					if strings.EqualFold(want, "INBOX") {
+						want = "INBOX"
+					}
 				}
 				if got != want {
 					return false
@@ -619,7 +658,7 @@ func (r *run) checkCalls(t fataler, cmds []command, status map[string]string) {
 					if s, ok := callArgString(v); ok && strings.Contains(s, "canary") {
 						carried := false
 						for _, a := range c.args {
-							carried = carried || a.val == s
+							carried = carried || sameArg(a.val, s)
 						}
 						if !carried {
 							return false
@@ -647,7 +686,7 @@ func (r *run) checkCalls(t fataler, cmds []command, status map[string]string) {
 			if ok && strings.Contains(s, "canary") && !r.accepted[s] {
 				quotedArg := false
 				for _, a := range c.args {
-					if a.val == s {
+					if sameArg(a.val, s) {
 						quotedArg = true
 					}
 				}
